@@ -142,7 +142,17 @@ def rand_value(rng, ct=None, unsigned=False, allow_null=True):
         if k == "mdate" and y == 0:
             y = 1; d = min(d, dim(y, m))
         h, mi, s = rng.randint(0, 23), rng.randint(0, 59), rng.randint(0, 59)
-        us = rng.choice([0, 0, 1, 999999, rng.randint(0, 999999)])
+        us = rng.choice([0, 0, 1, 999999, rng.randint(0, 999999), rng.choice([10, 1234, 99999, 100000, 500])])
+        # boundary shapes: midnight (with and without a fraction), whole minutes / hours, first of the month
+        z = rng.random()
+        if z < 0.15:
+            h = mi = s = 0
+        elif z < 0.22:
+            s = 0
+        elif z < 0.28:
+            mi = s = 0
+        if rng.random() < 0.1:
+            m, d = rng.choice([(1, 1), (12, 31), (m, 1)])
         txt = b"%04d-%02d-%02d %02d:%02d:%02d" % (y, m, d, h, mi, s) + (b".%06d" % us if us else b"")
         if k == "dt":
             ns = us * 1000 + rng.choice([0, 0, 999])
